@@ -14,8 +14,10 @@ use std::mem::MaybeUninit;
 static SERVICE_COUNTER: std::sync::atomic::AtomicUsize = std::sync::atomic::AtomicUsize::new(0);
 
 struct World<S: Service> {
-    node: Node<S>,
-    service: iceoryx2::service::port_factory::publish_subscribe::PortFactory<S, u64, ()>,
+    node: Option<Node<S>>,
+    service: Option<iceoryx2::service::port_factory::publish_subscribe::PortFactory<S, u64, ()>>,
+    prefix: String,
+    node_dir: String,
     pubs: HashMap<usize, Publisher<S, u64, ()>>,
     subs: HashMap<usize, Subscriber<S, u64, ()>>,
     loans: HashMap<(usize, usize), SampleMutUninit<S, MaybeUninit<u64>, ()>>,
@@ -48,7 +50,8 @@ fn mk<S: Service>(t: &[&str]) -> Result<World<S>, String> {
     let mut config = iceoryx2::config::Config::global_config().clone();
     config.defaults.publish_subscribe.subscriber_expired_connection_buffer = n(t[8]);
     // own domain: nothing is shared with other iceoryx2 users of this machine (test suites, other checks)
-    config.global.prefix = iceoryx2_bb_system_types::file_name::FileName::new(format!("vf{}_", std::process::id()).as_bytes()).unwrap();
+    let prefix = format!("vf{}c{}_", std::process::id(), k);
+    config.global.prefix = iceoryx2_bb_system_types::file_name::FileName::new(prefix.as_bytes()).unwrap();
     let node = NodeBuilder::new().config(&config).create::<S>().map_err(|e| format!("err:node:{e:?}"))?;
     let name = ServiceName::new(&format!("verif/pubsub/{}/{k}", std::process::id())).unwrap();
     let service = node
@@ -62,7 +65,8 @@ fn mk<S: Service>(t: &[&str]) -> Result<World<S>, String> {
         .enable_safe_overflow(n(t[7]) == 1)
         .create()
         .map_err(|e| format!("err:service:{e:?}"))?;
-    Ok(World { node, service, pubs: HashMap::new(), subs: HashMap::new(), loans: HashMap::new(), samples: HashMap::new(), pub_ids: HashMap::new(), max_borrow: n(t[6]).max(1), pub_labels: Default::default(), sub_labels: Default::default() })
+    let node_dir = format!("{}", node.id().value());
+    Ok(World { node: Some(node), service: Some(service), prefix, node_dir, pubs: HashMap::new(), subs: HashMap::new(), loans: HashMap::new(), samples: HashMap::new(), pub_ids: HashMap::new(), max_borrow: n(t[6]).max(1), pub_labels: Default::default(), sub_labels: Default::default() })
 }
 
 fn exec<S: Service>(w: &mut World<S>, t: &[&str]) -> String {
@@ -70,7 +74,8 @@ fn exec<S: Service>(w: &mut World<S>, t: &[&str]) -> String {
         "cpub" => {
             // cpub <p> <max_loans>
             if w.pub_labels.contains(&n(t[1])) { "dup".to_string() } else {
-            match w.service.publisher_builder().max_loaned_samples(n(t[2])).backpressure_strategy(BackpressureStrategy::DiscardData).create() {
+            if w.service.is_none() { return "no-service".to_string(); }
+            match w.service.as_ref().unwrap().publisher_builder().max_loaned_samples(n(t[2])).backpressure_strategy(BackpressureStrategy::DiscardData).create() {
                 Ok(p) => {
                     w.pub_ids.insert(p.id().value(), n(t[1]));
                     w.pub_labels.insert(n(t[1]));
@@ -85,7 +90,8 @@ fn exec<S: Service>(w: &mut World<S>, t: &[&str]) -> String {
         "csub" => {
             // csub <s> <buffer size or -> <history request or ->
             if w.sub_labels.contains(&n(t[1])) { "dup".to_string() } else {
-            let mut b = w.service.subscriber_builder();
+            if w.service.is_none() { return "no-service".to_string(); }
+            let mut b = w.service.as_ref().unwrap().subscriber_builder();
             if t[2] != "-" { b = b.buffer_size(n(t[2])); }
             if t[3] != "-" { b = b.history_request(n(t[3])); }
             match b.create() {
@@ -122,6 +128,10 @@ fn exec<S: Service>(w: &mut World<S>, t: &[&str]) -> String {
             }
             None => "none".into(),
         },
+        // C17: the node handle / the service handle are dropped while everything else lives on
+        "dnode" => match w.node.take() { Some(n) => { drop(n); "ok".into() } None => "none".into() },
+        "dsvc" => match w.service.take() { Some(n) => { drop(n); "ok".into() } None => "none".into() },
+        "ls" => list_resources(&w.prefix, &w.node_dir),
         "dloan" => match w.loans.remove(&(n(t[1]), n(t[2]))) { Some(s) => { drop(s); "ok".into() } None => "none".into() },
         "recv" => match w.subs.get(&n(t[1])) {
             Some(s) => match s.receive() {
@@ -165,6 +175,32 @@ fn exec<S: Service>(w: &mut World<S>, t: &[&str]) -> String {
     r
 }
 
+/// what exists of this case in the file system / shared memory namespace, by kind (ipc variant)
+fn list_resources(prefix: &str, node_dir: &str) -> String {
+    let mut counts: std::collections::BTreeMap<String, usize> = Default::default();
+    let mut scan = |dir: &str| {
+        if let Ok(rd) = std::fs::read_dir(dir) {
+            for e in rd.flatten() {
+                let n = e.file_name().to_string_lossy().to_string();
+                if n.starts_with(prefix) {
+                    let kind = n.rsplit('.').next().unwrap_or("?").to_string();
+                    *counts.entry(kind).or_insert(0) += 1;
+                }
+            }
+        }
+    };
+    scan("/dev/shm");
+    scan("/tmp/iceoryx2/nodes");
+    scan("/tmp/iceoryx2/services");
+    scan(&format!("/tmp/iceoryx2/nodes/{node_dir}"));
+    if std::path::Path::new(&format!("/tmp/iceoryx2/nodes/{node_dir}")).exists() {
+        counts.insert("nodedir".into(), 1);
+    }
+    counts.remove("global_mgmt"); // the domain-wide management segment persists by design
+    let v: Vec<String> = counts.iter().map(|(k, c)| format!("{k}={c}")).collect();
+    if v.is_empty() { "-".into() } else { v.join(",") }
+}
+
 impl Comp for PubSubComp {
     fn exec(&mut self, t: &[&str]) -> String {
         if t[0] == "new" {
@@ -188,6 +224,9 @@ pub fn generate(a: &Args) -> Vec<Vec<String>> {
     let variant = a.rest.iter().find(|x| *x == "ipc").map(|_| "ipc").unwrap_or("local");
     let sat = a.rest.iter().any(|x| x == "sat");
     fn lo(rng: &mut Rng) -> u64 { if rng.chance(10) { 0 } else { 1 } }
+    if a.rest.iter().any(|x| x == "shutdown") {
+        return shutdown_cases(a, variant);
+    }
     if a.exhaustive > 0 {
         return exhaustive(a, variant);
     }
@@ -305,6 +344,85 @@ fn exhaustive(a: &Args, variant: &str) -> Vec<Vec<String>> {
             }
             cases.push(lines);
         });
+    }
+    cases
+}
+
+/// C17: build an object graph (node, service handle, publishers, subscribers, loans, received samples), then
+/// drop every object in some order; `ls` after every drop, survivors are exercised in between.
+/// `--exhaustive 1`: every permutation of the drop order of a fixed graph of 6 objects (720) per configuration;
+/// otherwise random graphs and random orders.
+fn shutdown_cases(a: &Args, variant: &str) -> Vec<Vec<String>> {
+    let mut cases = vec![];
+    let mut rng = Rng::new(a.seed ^ 0x17);
+    let exercise = |lines: &mut Vec<String>, alive: &[String], rng: &mut Rng, nl: &mut usize, tag: &mut u64| {
+        // survivors keep working: a live publisher can loan and send, a live subscriber can receive
+        for o in alive {
+            let t: Vec<&str> = o.split(' ').collect();
+            if t[0] == "dpub" && rng.chance(50) {
+                lines.push(format!("loan {} {}", t[1], *nl));
+                *tag += 1;
+                lines.push(format!("send {} {} {}", t[1], *nl, *tag));
+                *nl += 1;
+            }
+            if t[0] == "dsub" && rng.chance(50) {
+                lines.push(format!("has {}", t[1]));
+            }
+        }
+    };
+    if a.exhaustive > 0 {
+        let objs = ["dnode", "dsvc", "dpub 0", "dsub 0", "dloan 0 100", "dsample 0 0"];
+        let mut perm: Vec<usize> = (0..objs.len()).collect();
+        let mut perms = vec![];
+        fn heap(k: usize, p: &mut Vec<usize>, out: &mut Vec<Vec<usize>>) {
+            if k == 1 { out.push(p.clone()); return; }
+            heap(k - 1, p, out);
+            for i in 0..k - 1 {
+                if k % 2 == 0 { p.swap(i, k - 1) } else { p.swap(0, k - 1) }
+                heap(k - 1, p, out);
+            }
+        }
+        heap(objs.len(), &mut perm, &mut perms);
+        for cfg in ["2 2 2 1 2 1 3", "1 1 1 0 1 0 1"] {
+            for p in &perms {
+                let mut lines = vec![format!("new {variant} {cfg}"), "cpub 0 2".into(), "csub 0 - -".into(), "loan 0 0".into(), "send 0 0 1".into(),
+                                     "recv 0".into(), "loan 0 100".into(), "ls".into()];
+                for &i in p {
+                    lines.push(objs[i].to_string());
+                    lines.push("ls".into());
+                }
+                cases.push(lines);
+            }
+        }
+        return cases;
+    }
+    for _ in 0..a.cases {
+        let (mp, ms) = (rng.range(1, 2), rng.range(1, 2));
+        let mut lines = vec![format!("new {variant} {mp} {ms} {} {} {} {} {}", rng.range(1, 2), rng.range(0, 1), rng.range(1, 2), rng.below(2), rng.range(1, 3))];
+        let mut objs: Vec<String> = vec!["dnode".into(), "dsvc".into()];
+        let (mut nl, mut tag) = (0usize, 0u64);
+        for p in 0..mp { lines.push(format!("cpub {p} 2")); objs.push(format!("dpub {p}")); }
+        for s in 0..ms { lines.push(format!("csub {s} - -")); objs.push(format!("dsub {s}")); }
+        for p in 0..mp {
+            lines.push(format!("loan {p} {nl}")); tag += 1; lines.push(format!("send {p} {nl} {tag}")); nl += 1;
+            if rng.chance(60) { lines.push(format!("loan {p} {nl}")); objs.push(format!("dloan {p} {nl}")); nl += 1; }
+        }
+        for s in 0..ms {
+            if rng.chance(70) { lines.push(format!("recv {s}")); objs.push(format!("dsample {s} 0")); }
+        }
+        lines.push("ls".into());
+        // random order
+        for i in (1..objs.len()).rev() {
+            let j = rng.below(i as u64 + 1) as usize;
+            objs.swap(i, j);
+        }
+        while let Some(o) = objs.pop() {
+            lines.push(o);
+            lines.push("ls".into());
+            exercise(&mut lines, &objs, &mut rng, &mut nl, &mut tag);
+        }
+        lines.push("ls".into());
+        cases.push(lines);
     }
     cases
 }
